@@ -90,6 +90,8 @@ def kernels(tier):
                         f"let inv = s.recip(); let c = {M3t}::from_cols({ax('x')} * inv.x, {ax('y')} * inv.y, {ax('z')} * inv.z); {wqq}(o, 10, {Q}::from_mat3(&c));",
                         struct, hyps=hy, elem=elem, site=f"{T}::to_scale_rotation_translation",
                         desc="to_scale_rotation_translation of an ARBITRARY non-singular affine matrix: translation = last column, scale = (sign(det)|c0|, |c1|, |c2|), rotation = matrix-to-quaternion of the normalised axes", timeout=120))
+    # (a direct 'rotation of T R(p) diag(s) is +-p' query, even restricted to s > 0, exceeds 200 s per branch in nlsat: not claimed; the branch bodies of the
+    #  matrix-to-quaternion conversion are decided in C05 on unscaled rotations, and steps 1+2 reduce the scaled case to it)
     # step 2 lemmas (pure reference algebra, decided by z3)
     for sig, d in (((1, 1, 1), [0, 0, 0, 1]), ((1, -1, -1), [1, 0, 0, 0]), ((-1, 1, -1), [0, 1, 0, 0]), ((-1, -1, 1), [0, 0, 1, 0])):
         def lem(x, o, h, sig=sig, d=d):
